@@ -35,6 +35,9 @@ def main():
     skip_confirm = "--no-confirm" in sys.argv
     wt = "/tmp/seed-eval-%d" % os.getpid()
     sh(f"git -C /repo worktree add -q --detach {wt} HEAD")
+    # the checks run from a snapshot of the committed /verif so that concurrent edits do not disturb them
+    vsnap = "/tmp/seed-verif-%d" % os.getpid()
+    sh(f"git -C /verif worktree add -q --detach {vsnap} HEAD")
     result = {"dir": mdir, "confirmed": None, "checks": {}}
     try:
         demo = os.path.join(mdir, "demo.py")
@@ -65,7 +68,7 @@ def main():
         else:
             sh(f"git apply {mdir}/patch.diff", cwd=wt)
         for c in checks:
-            rc, out = sh(f"PYTHONHASHSEED=0 /venv/bin/python -m harness.check {c} --tier {tier}", cwd="/verif",
+            rc, out = sh(f"PYTHONHASHSEED=0 /venv/bin/python -m harness.check {c} --tier {tier}", cwd=vsnap,
                          env={"VERIF_REPO": wt}, timeout=7200)
             vio = [l for l in out.splitlines() if l.startswith("VIOLATION") or l.startswith("  #")]
             print(f"check {c} ({tier}) rc={rc}")
@@ -77,8 +80,8 @@ def main():
     finally:
         sh(f"git -C /repo worktree remove --force {wt}")
         shutil.rmtree(wt, ignore_errors=True)
-        # evidence files were rewritten by a run against a patched tree: restore them
-        sh("git checkout -- evidence 2>/dev/null", cwd="/verif")
+        sh(f"git -C /verif worktree remove --force {vsnap}")
+        shutil.rmtree(vsnap, ignore_errors=True)
     print("RESULT " + json.dumps({"confirmed": result["confirmed"], "caught": {c: v["rc"] == 1 for c, v in result["checks"].items()}}))
     return result
 
